@@ -18,7 +18,7 @@ use std::io::Write;
 pub const META_C16: Meta = Meta {
     id: "C16",
     level: "exploration",
-    rule: "Exhaustive: every list of 1-3 elements over codings {gzip, identity, *, br, deflate, x-gzip} (thorough: also every list of 4 elements over {gzip, identity, *, br}) x weights {none, 0, 0., 0.0, 0.000, 0.001, 0.009, 0.01, 0.05, 0.1, 0.5, 0.999, 1, 1., 1.000} (one-, two- and three-decimal spellings whose order a scaling error would change), rendered with a rotating set of optional-whitespace patterns around ',' and ';'; absent and empty header; proptest for longer lists and random whitespace; arbitrary HeaderValue bytes for the no-panic clause. Oracle: independent evaluator in thousandths (gzip's quality else *'s else unacceptable; identity's else *'s else least-preferred acceptable; gzip > 0 and gzip >= identity); a coding listed twice admits the answers of either occurrence. Non-trivial = at least two of {gzip, identity, *} occur, at least one with a weight; distinct by header value.",
+    rule: "Exhaustive: every list of 1-3 elements over codings {gzip, identity, *, br, deflate, x-gzip} (thorough: also every list of 4 elements over {gzip, identity, *, br}) x weights {none, 0, 0., 0.0, 0.000, 0.001, 0.009, 0.01, 0.05, 0.1, 0.5, 0.999, 1, 1., 1.000} (one-, two- and three-decimal spellings whose order a scaling error would change), rendered with a rotating set of optional-whitespace patterns around ',' and ';'; every pair of the 1001 qvalues for gzip vs identity (and adjacent pairs with *); absent and empty header; proptest for longer lists and random whitespace; arbitrary HeaderValue bytes for the no-panic clause. Oracle: independent evaluator in thousandths (gzip's quality else *'s else unacceptable; identity's else *'s else least-preferred acceptable; gzip > 0 and gzip >= identity); a coding listed twice admits the answers of either occurrence. Non-trivial = at least two of {gzip, identity, *} occur, at least one with a weight; distinct by header value.",
     assumptions: &["codings and 'q' are lower case, as in the statement's domain", "a coding listed more than once: any answer consistent with one choice of occurrence is accepted"],
 };
 
@@ -268,6 +268,34 @@ pub fn run_c16(cx: &Cx) -> Acc {
             }
         }));
     }
+    // Every pair of qvalues 0.000 ..= 1.000 for gzip vs identity (1001 x 1001), and the adjacent
+    // pairs for each of the other coding combinations, in the shortest and in the 3-decimal spelling.
+    let rows: Vec<u32> = (0..=1000).collect();
+    acc.merge(par_units(cx, "all-qvalue-pairs", &rows, true, "gzip;q=A, identity;q=B for all 1001 x 1001 qvalues; *-combinations for |A-B| <= 1", |cx, &a, acc| {
+        let spell = |q: u32, long: bool| -> String {
+            if q == 1000 {
+                return if long { "1.000".into() } else { "1".into() };
+            }
+            let s = format!("0.{q:03}");
+            if long {
+                s
+            } else {
+                let t = s.trim_end_matches('0');
+                if t == "0." { "0".into() } else { t.to_string() }
+            }
+        };
+        for b in 0..=1000u32 {
+            let long = (a + b) % 2 == 0;
+            let v = Some(Bs::s(&format!("gzip;q={}, identity;q={}", spell(a, long), spell(b, !long))));
+            acc.run_case(cx, "all-qvalue-pairs", &v, |acc| check_c16(&v, acc));
+            if a.abs_diff(b) <= 1 {
+                for (x, y) in [("*", "identity"), ("gzip", "*"), ("identity", "gzip")] {
+                    let v = Some(Bs::s(&format!("{x};q={},{y};q={}", spell(a, !long), spell(b, long))));
+                    acc.run_case(cx, "all-qvalue-pairs", &v, |acc| check_c16(&v, acc));
+                }
+            }
+        }
+    }));
     let fixed: Vec<Option<Bs>> = vec![None, Some(Bs::s("")), Some(Bs::s(" ")), Some(Bs::s("\t"))];
     acc.merge(par_units(cx, "absent-empty", &fixed, true, "absent, empty and blank header", |cx, v, acc| {
         acc.run_case(cx, "absent-empty", v, |acc| check_c16(v, acc));
